@@ -5,6 +5,8 @@ def text_edit(old, new):
         return src.replace(old, new, 1) if old in src else None
     return edit
 MUTANTS = [
+    Mutant('declarative_ode_unsubstituted', 'src/pharmpy/modeling/expressions.py', text_edit("            s = s.subs(current)\n            newstats.append(s)", "            newstats.append(s)"), 'F8', 'ODE system emitted without pending substitutions'),
+    Mutant('pop_pred_iiv_only', 'src/pharmpy/modeling/expressions.py', text_edit("{Expr.symbol(eta): 0 for eta in model.random_variables.etas.names}", "{Expr.symbol(eta): 0 for eta in model.random_variables.iiv.names}"), 'F9', 'IOV etas left in the population prediction'),
     Mutant('eta_gradient_prefers_stored', 'src/pharmpy/modeling/evaluation.py', text_edit("    if etas is not None:\n        _etas = etas\n    elif model.initial_individual_estimates is not None:\n        _etas = model.initial_individual_estimates\n    else:", "    _etas = model.initial_individual_estimates\n    if _etas is None:\n        _etas = etas\n    if _etas is None:"), 'F5', 'stored estimates win over the argument'),
     Mutant('assumptions_swapped', 'src/pharmpy/modeling/expressions.py', text_edit("            s = sympy.Symbol(p.name, real=True, nonnegative=True)", "            s = sympy.Symbol(p.name, real=True, positive=True)"), 'F6', 'lower >= 0 treated as positive'),
     Mutant('kept_symbols_not_defined', 'src/pharmpy/model/external/nonmem/records/code_record.py', text_edit("                for s in statements:\n                    if isinstance(s, Assignment):\n                        defined_symbols.add(s.symbol)\n", ""), 'F7', 'kept statements not recorded'),
